@@ -297,7 +297,7 @@ def cases(draw):
         assume(_names_ok(pattern))
         return {"shape": shape, "kind": kind, "listing": L, "pattern": pattern, "edge": edge, "times": t, "r": r, "flags": list(full), "ext": ext, "big": big, "huge": huge, "spelling": spelling}
     # meta
-    rel = draw(st.sampled_from(["unroll", "unroll", "range-eq-int", "spelling", "operand-deref", "operand-or", "operand-not", "operand-capture-ref", "operand-regcapture-ref", "macro-plain-use", "macro-plain-use", "macro-plain-use", "macro-times-use", "macro-times-use"]))
+    rel = draw(st.sampled_from(["unroll", "unroll", "range-eq-int", "spelling", "operand-deref", "operand-or", "operand-not", "operand-capture-ref", "operand-regcapture-ref", "macro-plain-use", "macro-plain-use", "macro-plain-use", "macro-times-use", "macro-times-use", "macro-times-use", "macro-times-use"]))
     n_ = draw(st.integers(0, 4))
     macros = None
     if rel in ("macro-plain-use", "macro-times-use") and (kind not in ("item", "item-ops", "$or", "$and") or not usable):
@@ -314,6 +314,16 @@ def cases(draw):
         inv = {"@ytimes_": {"times": t}} if spelling == "inside" else {"@ytimes_": [], "times": t} if spelling == "sibling" else {"times": t, "@ytimes_": []}
         p1 = [dA, inv, dB]
         p2 = [dA, {"$and": [copy.deepcopy(node)], "times": t}, dB]
+        if draw(st.booleans()):
+            # the same invocation twice in one rule (written out twice, or once with an anchor and once through an alias)
+            mid = fresh(draw, avoid=xs + [A[0], B[0]])
+            dM = describe_inst(draw, ("0", mid[0], mid[2]), full)
+            run2 = []
+            for _ in range(draw(st.sampled_from([lo, hi, hi, max(0, lo - 1), hi + 1]))):
+                run2.extend(draw(st.sampled_from(usable)))
+            L = _mk_listing(draw, pre + [A] + run + [mid] + run2 + [B] + post)
+            p1 = [dA, inv, dM, copy.deepcopy(inv), dB]
+            p2 = [dA, {"$and": [copy.deepcopy(node)], "times": t}, dM, {"$and": [copy.deepcopy(node)], "times": t}, dB]
     elif rel == "macro-plain-use":
         # an item without `times` is bounds (1,1) - also when it is a macro use and ANOTHER use of the same macro carries `times`:
         # [A, @m{times t}, @m, B] against the same rule with the plain use written out by hand (the macro still defined and used by
